@@ -43,6 +43,23 @@ def _make(h, leaf, bund, kind, name):
     raise ValueError(kind)
 
 
+def _mk_aux(h, leaf, target):
+    """a finished library object beside the one under test; values are also taken from it by multiplication (`2 * aux.s` makes copies)"""
+    if target == "module":
+        aux = h.Module(name="Aux")
+        aux.s, aux.p, aux.u = h.Signal(width=2), h.Input(), h.Instance(of=leaf)
+    else:
+        aux = h.Bundle(name="AuxB")
+        aux.s, aux.p = h.Signal(width=2), h.Signal()
+    return aux
+
+
+def _project_aux(target, aux):
+    pa = "_parent_module" if target == "module" else "_parent_bundle"
+    views = ["ports", "signals", "instances", "instarrays", "instbundles", "bundles"] if target == "module" else ["signals", "bundles"]
+    return [[n, v.name == n, getattr(v, pa, None) is aux, sorted(w for w in views if getattr(aux, w).get(n) is v)] for n, v in sorted(aux.namespace.items())]
+
+
 def _project(h, target, obj, ids, reserved):
     def oid(x):
         return ids.get(id(x), -3) if x is not None else -1
@@ -70,6 +87,8 @@ def replay(args):
     h, leaf, bund = _mk_env()
     reserved = "ports" if target == "module" else "signals"
     obj = h.Module(name="M") if target == "module" else h.Bundle(name="B")
+    aux = _mk_aux(h, leaf, target)
+    aux0 = _project_aux(target, aux)
     ids = {}
     keep = []
     events = []
@@ -81,7 +100,11 @@ def replay(args):
         try:
             if o["op"] in ("setattr", "add"):
                 named = o["op"] == "add" and o["mode"] in ("named", "both")
-                val = _make(h, leaf, bund, o["kind"], o["name"] if named else None)
+                if o["op"] == "setattr" and o["mode"] == "mul" and o["kind"] in ("signal", "port"):
+                    # the value is a copy made by multiplying an attribute of the OTHER object: 2 * aux.s
+                    val = (2 * (aux.s if o["kind"] == "signal" or target == "bundle" else aux.p))[seq % 2]
+                else:
+                    val = _make(h, leaf, bund, o["kind"], o["name"] if named else None)
                 keep.append(val)
                 ids[id(val)] = seq
                 if o["op"] == "setattr":
@@ -98,6 +121,13 @@ def replay(args):
                     setattr(obj, o["name"], cur)
                 else:
                     obj.add(cur)
+            elif o["op"] == "mulinst":
+                cur = obj.get(o["mode"])
+                if cur is None:
+                    raise LookupError("unbound")
+                setattr(obj, o["name"], 2 * cur)          # multiplying an Instance this module already holds
+            elif o["op"] == "extfromports":
+                keep.append(h.ExternalModule(name="bb", port_list=list(aux.ports.values()) + list(obj.ports.values())[:1], desc="black box"))
             elif o["op"] == "alias":
                 cur = obj.get(o["mode"])
                 if cur is None:
@@ -124,6 +154,7 @@ def replay(args):
             ev["raised"] = True
             ev["exc"] = type(ex).__name__
         ev.update(_project(h, target, obj, ids, reserved))
+        ev["aux"], ev["aux0"] = _project_aux(target, aux), aux0
         events.append(ev)
     return events
 
@@ -155,7 +186,7 @@ def replay_classdef(args):
     for n, kind, i in b3:
         seen[n] = [n, kind, i]
     ev = {"tid": tid, "seq": 1, "target": target, "op": "classdef", "name": "", "kind": "", "mode": "",
-          "raised": False, "result": -1, "body": list(seen.values()), "psignals": [], "pports": [], "pinsts": []}
+          "raised": False, "result": -1, "body": list(seen.values()), "psignals": [], "pports": [], "pinsts": [], "aux": [], "aux0": []}
     obj = None
     try:
         cls = type("M" if target == "module" else "B", (), dict(d))
